@@ -61,8 +61,8 @@ class C04(CollProperty):
     quick_runs = 1500
     quick_budget_s = 150
     thorough_budget_s = 900
-    rule = ("1-3 scripted writers per run over 19 time-series shapes (TS<Int>, TS<Str>, SIGNAL, TSS, TSD, TSL, TSB, TSW and the nestings TSD<TSB>, TSD<TSD>, "
-            "TSD<TSS>, TSL<TSS>, TSD<Str,TSL>, TSD<TSW>, TSB{TS,TSS}, TSB{TS,TSL}, TSB{TS,TSB}) - an erased writer applying seeded canonical deltas through apply_delta and typed writers using "
+    rule = ("1-3 scripted writers per run over 22 time-series shapes (TS<Int>, TS<Str>, SIGNAL, TSS, TSD, TSL, TSB, TSW and the nestings TSD<TSB>, TSD<TSD>, "
+            "TSD<TSS>, TSL<TSS>, TSD<Str,TSL>, TSD<TSW>, TSD<TSB{TS,TSS}>, TSL<TSB>, TSB{TS,TSS}, TSB{TS,TSL}, TSB{TS,TSB}, TSB{TS,TSW}) - an erased writer applying seeded canonical deltas through apply_delta and typed writers using "
             "the authoring API's own mutators (incl. dictionary entries written through their child outputs); per cycle: one write, several writes, child-only writes, no write, invalidation, key removal - each "
             "observed by 2-4 consumers: active consumers at different ranks and an always-awake probe whose input is passive + Unchecked and which "
             "wakes itself every cycle, so flags are also read in the cycles where nothing happened. Oracle (write-history model): modified <=> the "
